@@ -90,6 +90,8 @@ package ldiff
 //@   sets grRes = result.Elements
 //@ func (*diff).compareResults
 //@   requires d != nil && dctx != nil
+//@   modifies fields diffCtx.prepare diffCtx.newIds diffCtx.changedIds diffCtx.theirChangedIds diffCtx.removedIds
+//@   modifies kinds string uint64 bool int
 //@   assumes dctx.compareFunc != nil
 //@   assumes 2 <= d.divideFactor && d.divideFactor <= 1048576 && r.From <= r.To && r.To - r.From >= d.divideFactor - 1
 //@   ensures [skip_only_when_proved_equal] cmpCalls == old(cmpCalls) && len(dctx.prepare) == old(len(dctx.prepare)) ==> bytesEq(myRes.Hash, otherRes.Hash) && (len(myRes.Hash) != 0 || (myRes.Count == 0 && otherRes.Count == 0))
@@ -163,3 +165,18 @@ package ldiff
 //@ func (*diff).RemoveId
 //@   requires d != nil && d.sl != nil && d.ranges != nil
 //@   ensures [counts_track_contents] rangeNet - old(rangeNet) == slNet - old(slNet)
+
+// ---------------------------------------------------------------------------------------------
+// C11: a remote that answers with the wrong number of results (or garbage) is rejected, never indexed
+// out of range: both diff drivers index the two answer lists only under the length check.
+//@ func (*diff).Ranges
+//@   trusted
+//@   modifies nothing
+//@ func (*diff).Diff
+//@   requires d != nil && dl != nil && ctx != nil
+//@   loop 1:
+//@     invariant -1 <= rangeindex && rangeindex < len(dctx.toSend) && len(dctx.myRes) == len(dctx.toSend) && len(dctx.otherRes) == len(dctx.toSend)
+//@ func (*diff).CompareDiff
+//@   requires d != nil && dl != nil && ctx != nil
+//@   loop 1:
+//@     invariant -1 <= rangeindex && rangeindex < len(dctx.toSend) && len(dctx.myRes) == len(dctx.toSend) && len(dctx.otherRes) == len(dctx.toSend)
